@@ -98,6 +98,9 @@ def dense_matrix(spec):
         M = B @ B.conj().T / n
         if n == 1:
             M = M * 0
+    elif sym == "psd_badscale":  # positive definite, diagonal entries four orders of magnitude apart, fully coupled
+        v = np.array([1.0] * ((n + 1) // 2) + [1e-2] * (n // 2))
+        M = np.outer(v, v) + 1e-4 * np.eye(n)
     elif sym == "psd_rank1":
         B = rnd(n, 1)
         M = B @ B.conj().T
